@@ -1008,6 +1008,10 @@ class MyPyAstVisitor:
         unanalyzed_type: mp_types.Type | None = None,
     ) -> AbstractType:
 
+        # A type alias stands for its target type
+        if isinstance(mypy_type, mp_types.TypeAliasType) and not mypy_type.is_recursive:
+            mypy_type = mp_types.get_proper_type(mypy_type)
+
         # Special cases where we need the unanalyzed_type to get the type information we need
         if unanalyzed_type is not None and hasattr(unanalyzed_type, "name"):
             unanalyzed_type_name = unanalyzed_type.name
